@@ -55,6 +55,8 @@ struct Hist {
 	/// set by a directed episode: the next cancel names this slate
 	force_cancel: Option<Uuid>,
 	force_direct: bool,
+	force_scan_del: bool,
+	late_done: bool,
 	/// (amount, amount_includes_fee, ttl_blocks): a send with exactly these, from the active account,
 	/// smallest outputs first, one change output, not late-locked
 	force_init: Option<(u64, bool, Option<u64>, bool)>,
@@ -238,6 +240,34 @@ impl Hist {
 			(&*lc.get_mnemonic(None, ZeroingString::from("")).unwrap()).to_owned()
 		};
 		self.restores += 1;
+		// the new database knows nothing of the reservations of the old one: a transaction of this wallet
+		// that is finalized but not yet in the chain will spend outputs the restored wallet never reserved
+		{
+			let chain = self.s.node.chain.clone();
+			let mut spends_unreserved = false;
+			for fl in self.flights.iter_mut() {
+				let spender = if fl.invoice { fl.payer.unwrap_or(1 - fl.sender) } else { fl.sender };
+				if spender != i {
+					continue;
+				}
+				let on_chain = match fl.fin.as_ref().and_then(|f| f.tx.as_ref()) {
+					Some(tx) => matches!(chain.get_kernel_height(&tx.kernels()[0].excess, None, None), Ok(Some(_))),
+					None => false,
+				};
+				if !on_chain {
+					if fl.posted && fl.fin.is_some() {
+						spends_unreserved = true;
+					}
+					fl.locked = false;
+					if fl.fin.is_some() {
+						fl.late = false;
+					}
+				}
+			}
+			if spends_unreserved {
+				self.unreserved_spend[i] = true;
+			}
+		}
 		let name = format!("w{}_r{}", i, self.restores);
 		let c = self.s.add_wallet(&name, Some(&phrase), false);
 		self.s.wallets.swap(i, c);
@@ -253,7 +283,7 @@ impl Hist {
 	/// owner::scan of the existing wallet from the first block (check / repair)
 	fn scan(&mut self, i: usize) {
 		self.learn(i);
-		let del = self.p.chance(1, 3);
+		let del = self.p.chance(1, 3) || self.force_scan_del;
 		let chain = self.chain_outs(i);
 		let view = self.node_view(i);
 		let parent = self.active(i);
@@ -1039,6 +1069,49 @@ impl Hist {
 		);
 	}
 
+	/// Directed late refresh: an account mines one or two blocks (and, one time in two, builds a
+	/// coinbase candidate that never makes it into a block) and does not look at the node; the other
+	/// wallet mines past the horizon (50 blocks) after which a refresh drops unconfirmed coinbase
+	/// candidates; then the account is refreshed — the mined coinbases are confirmed, only the
+	/// candidate that was never mined is dropped.
+	fn late_refresh_episode(&mut self) {
+		let i = self.p.below(2) as usize;
+		let a = self.p.below(2);
+		if self.active(i) != a {
+			self.set_active(i, a);
+		}
+		let n = self.p.range(1, 2);
+		for _ in 0..n {
+			self.mine(i, false);
+		}
+		if self.p.coin() {
+			let bf = BlockFees {
+				fees: 0,
+				key_id: None,
+				height: self.s.node.height() + 1,
+			};
+			let r = guarded(|| self.s.with(i, |b, m| foreign::build_coinbase(b, m, &bf, false)));
+			let rc = rc_of(&r);
+			self.record(
+				i,
+				json!({"k": "coinbase", "fees": "0", "height": bf.height, "key": null}),
+				rc,
+				json!({"foreign": true, "never_mined": true}),
+			);
+		}
+		let m = self.p.range(50, 54);
+		for _ in 0..m {
+			self.mine(1 - i, false);
+		}
+		// one time in two the wallet's other account is looked at first
+		if self.p.coin() {
+			self.set_active(i, 1 - a);
+			self.refresh(i, true);
+			self.set_active(i, a);
+		}
+		self.refresh(i, true);
+	}
+
 	/// Directed payment: a send is initiated, delivered into a chosen account of the other wallet,
 	/// reserved, finalized, posted, mined and then seen by a refresh of that account (and of the
 	/// sender's) — so that confirmations of non-coinbase outputs in BOTH accounts occur often.
@@ -1406,6 +1479,13 @@ impl Hist {
 		if self.p.coin() {
 			self.update_state(r_i);
 		}
+		// ... and one time in three its owner runs the repair scan that drops unconfirmed records (scan -d):
+		// the reverted payment is not one of those
+		if self.p.chance(1, 3) {
+			self.force_scan_del = true;
+			self.scan(r_i);
+			self.force_scan_del = false;
+		}
 		match self.p.below(3) {
 			0 => {
 				// the payment is mined again
@@ -1596,6 +1676,13 @@ impl Hist {
 		} else if in_band(w_episode) {
 			self.reorg_episode();
 		} else if in_band(w_pay) {
+			// (the late refresh: at most once per history, it is 50 blocks long; mostly in profile c04)
+			let late = !self.late_done && self.p.chance(1, if self.profile == "c04" { 5 } else { 16 });
+			if late {
+				self.late_done = true;
+				self.late_refresh_episode();
+				return;
+			}
 			match self.p.below(7) {
 				0 => self.invoice_episode(),
 				1 => self.late_lock_episode(),
@@ -1655,6 +1742,8 @@ fn main() {
 			force_late: None,
 			force_cancel: None,
 			force_direct: false,
+			force_scan_del: false,
+			late_done: false,
 			force_init: None,
 		};
 		// a funded start (modelled as coinbase ops): the same number of blocks to each wallet, in
